@@ -56,7 +56,7 @@ Proof. intros cfg s0 h Hc Hi. exact (run_backed_init cfg Hc s0 h Hi). Qed.
 Print Assumptions C03_backing.
 
 Theorem C03_backing_step : forall cfg base s o s',
-  wf cfg s -> Backed cfg base s -> step cfg s o = Ok s' -> Backed cfg base s'.
+  wf cfg s -> Ghost cfg s -> Backed cfg base s -> step cfg s o = Ok s' -> Backed cfg base s'.
 Proof. exact step_backed. Qed.
 Print Assumptions C03_backing_step.
 
@@ -130,13 +130,14 @@ Theorem C03_success_ack_effect : forall cfg s src dst sq s' p,
 Proof. exact ack_success_effect. Qed.
 Print Assumptions C03_success_ack_effect.
 
-(** Error acknowledgement: ack status 2 and the sender gets back exactly what was taken from him. *)
+(** Error acknowledgement: ack status 2 and the sender (for a packet sent on by the agent contract: the refund
+    address the agent was given) gets back exactly what was taken. *)
 Theorem C03_error_ack_refund : forall cfg s src dst sq s' p,
-  step cfg s (Ack src dst sq) = Ok s' -> lookup src dst sq (packets s) = Some p -> p_code p <> 0 ->
+  step cfg s (Ack src dst sq) = Ok s' -> lookup src dst sq (packets s) = Some p -> p_code p <> 0 -> sender_ok p ->
   (forall c, c <> src -> chains s' c = chains s c) /\
   ack_status (chains s' src) dst sq = 2 /\
-  bal (chains s' src) (p_token p) (User (p_sender p)) =
-    bal (chains s src) (p_token p) (User (p_sender p)) + refund_due cfg p.
+  bal (chains s' src) (p_token p) (refund_target p) =
+    bal (chains s src) (p_token p) (refund_target p) + refund_due cfg p.
 Proof. exact ack_error_refund. Qed.
 Print Assumptions C03_error_ack_refund.
 
@@ -191,10 +192,10 @@ Definition ex_s0 : state :=
     a duplicate receive and a premature acknowledgement (rejected); 2 units back from chain 1 (200 local
     units burned) received on chain 0 but not yet acknowledged; 50 more sent and still in flight. *)
 Definition ex_history : list op :=
-  [ Transfer 0 0 1 1000 1 (Some (User 1)) CdRevert CbNone 1 0; Recv 0 1 1; Ack 0 1 1;
-    Transfer 0 0 1 600 1 (Some (User 1)) (CdOk 7) CbNone 1 5; Recv 0 1 2; Recv 0 1 2; Ack 0 1 2;
-    Transfer 1 1 1 2 0 (Some (User 2)) CdNone CbNone 1 0; Ack 1 0 1; Recv 1 0 1;
-    Transfer 0 0 1 50 1 (Some (User 1)) CdNone CbNone 1 0 ].
+  [ Transfer 0 0 1 1000 1 (Some (User 1)) CdRevert false 1 0; Recv 0 1 1; Ack 0 1 1;
+    Transfer 0 0 1 600 1 (Some (User 1)) (CdOk 7) false 1 5; Recv 0 1 2; Recv 0 1 2; Ack 0 1 2;
+    Transfer 1 1 1 2 0 (Some (User 2)) CdNone false 1 0; Ack 1 0 1; Recv 1 0 1;
+    Transfer 0 0 1 50 1 (Some (User 1)) CdNone false 1 0 ].
 
 Example C03_nonvacuous :
   cfg_consistent ex_cfg /\ init_ok ex_s0 /\
